@@ -2,6 +2,7 @@ package main
 
 import (
 	"fmt"
+	"sort"
 	"strings"
 
 	sim "github.com/ah-naf/borno/verifsimrt"
@@ -127,6 +128,44 @@ func c19Systematic(tier string) []*Case {
 			c.ExpectNoRun = true
 		}
 		out = append(out, c)
+	}
+	// programs above size thresholds (buffers, recursion depth, counters)
+	{
+		var b, w strings.Builder
+		for i := 0; i < 3000; i++ {
+			fmt.Fprintf(&b, "%s %d;\n", KwPrint, i)
+			fmt.Fprintf(&w, "%d\n", i)
+		}
+		big := map[string][2]string{
+			"3000-statements": {b.String(), w.String()},
+			"100k-string":     {KwPrint + " \"" + strings.Repeat("s", 100000) + "\";\n", strings.Repeat("s", 100000) + "\n"},
+			"200-nested-blocks": {strings.Repeat("{ ", 200) + KwPrint + " \"deep\";" + strings.Repeat(" }", 200) + "\n", "deep\n"},
+			"300-nested-parens": {KwPrint + " " + strings.Repeat("(", 300) + "7" + strings.Repeat(")", 300) + ";\n", "7\n"},
+			"long-comment":      {"/* " + strings.Repeat("c\n", 5000) + "*/\n" + KwPrint + " \"after\";\n", "after\n"},
+			"big-then-lex-error": {b.String() + "@\n", ""},
+			"big-then-runtime-error": {b.String() + KwPrint + " nx;\n" + KwPrint + " \"never\";\n", w.String()},
+		}
+		var names []string
+		for n := range big {
+			names = append(names, n)
+		}
+		sort.Strings(names)
+		for _, n := range names {
+			prog, want := big[n][0], big[n][1]
+			cfg := scriptCfg(prog, "")
+			cfg.Budget = 40000000
+			cs := &Case{Prop: "C19", Kind: "class", Sig: "big:" + n, Runs: []Run{{Role: "line", Cfg: cfg}}}
+			cs.ExpectStdout = ptrS(want)
+			switch n {
+			case "big-then-lex-error":
+				cs.ExpectExit, cs.ExpectStderr, cs.ExpectNoRun = ptrI(65), "nonempty", true
+			case "big-then-runtime-error":
+				cs.ExpectExit, cs.ExpectStderr = ptrI(70), "nonempty"
+			default:
+				cs.ExpectExit, cs.ExpectStderr = ptrI(0), "empty"
+			}
+			out = append(out, cs)
+		}
 	}
 	// no argument: REPL; end of input ends it with status 0
 	{
